@@ -942,6 +942,17 @@ func pipeInput(c pipeCase) map[string]interface{} {
 	return in
 }
 
+// condsBuild: what newPPipe checks after the UTF-8 rule
+func condsBuild(from, where string) bool {
+	ok := false
+	vh.Recover(func() {
+		_, e1 := lql.BuildTagsExpFunc(from)
+		_, e2 := lql.BuildWhereExpFunc(where)
+		ok = e1 == nil && e2 == nil
+	})
+	return ok
+}
+
 // the refusal of newPPipe (3cf6638): a pipe whose name or conditions are not valid UTF-8 cannot be written to the registry file
 func utf8Refusal(err error) bool {
 	return err != nil && strings.Contains(err.Error(), "must be valid UTF-8")
@@ -1058,7 +1069,9 @@ func runPipeCases(sec *vh.Section, cs []pipeCase) {
 		// restart unchanged): it is no counter-part, the equivalence clause is vacuous for it. What the property still demands
 		// of CREATE PIPE there: the stored (printed) conditions mean what S and F mean — checked below against the real
 		// evaluators on the ORIGINAL texts — or CREATE PIPE is refused by the same rule.
-		noCounterpart := utf8Refusal(errB) && (!utf8.ValidString(c.From) || !utf8.ValidString(c.Where))
+		// (only when the UTF-8 rule is the ONLY reason: the same texts build a source and a filter function — what newPPipe
+		// checks next; otherwise the direct definition is refused anyway and the ordinary acceptance comparison applies)
+		noCounterpart := utf8Refusal(errB) && (!utf8.ValidString(c.From) || !utf8.ValidString(c.Where)) && condsBuild(c.From, c.Where)
 		printedInvalid := !utf8.ValidString(stFrom) || !utf8.ValidString(stWhere)
 		switch {
 		case noCounterpart && errA != nil && utf8Refusal(errA) && printedInvalid:
